@@ -377,8 +377,10 @@ fn sig_for(stage: &str, lit: &str, refv: Option<&Vec<PhView>>) -> Option<String>
         }
     }
     if stage == "A" && lit.contains('.') {
-        // empty precision (`{:.}`, `{:.x}`, `{:5.}`): deleting exactly the dots that are followed by an optional type
-        // and the end of the placeholder makes the parsers agree
+        // empty precision (`{:.}`, `{:.x}`, `{:5.}`): giving exactly the dots that are followed by an optional type and
+        // the end of the placeholder a precision makes the parsers agree up to that precision. (The dot is not deleted:
+        // `{:.}>` would become `{:}>`, where `}` reads as a fill character — a thorough run found that.)
+        const MARK: usize = 65534;
         let chars: Vec<char> = lit.chars().collect();
         let mut cand = String::new();
         let mut removed = 0;
@@ -396,6 +398,7 @@ fn sig_for(stage: &str, lit: &str, refv: Option<&Vec<PhView>>) -> Option<String>
                 }
                 if k < chars.len() && chars[k] == '}' {
                     removed += 1;
+                    cand.push_str(".65534");
                     continue;
                 }
             }
@@ -403,7 +406,14 @@ fn sig_for(stage: &str, lit: &str, refv: Option<&Vec<PhView>>) -> Option<String>
         }
         if removed > 0 {
             if let (Some(dv), Some(rv)) = (dm::guarded(|| dm_view(&cand)).ok().flatten(), refv) {
-                if dv.len() == rv.len() && dv.iter().zip(rv).all(|(a, b)| a.same_as(b)) {
+                let same = |a: &PhView, b: &PhView| {
+                    a.same_as(b) || (a.prec == Cnt::Int(MARK) && b.prec == Cnt::None && {
+                        let mut a2 = a.clone();
+                        a2.prec = Cnt::None;
+                        a2.same_as(b)
+                    })
+                };
+                if dv.len() == rv.len() && dv.iter().zip(rv).all(|(a, b)| same(a, b)) {
                     return Some("c03-empty-precision".into());
                 }
             }
